@@ -875,6 +875,11 @@ def trait_impl_expectations(I, eff, deps, fns, trait_item, impl_item, attr0, mod
                 tg.append(I.toks(gp))
         O.add('C03', 'trait-generics-are-the-non-dependency-parameters', len(trait_item.generics) == len(tg) and
               zand(*[toks_eq(a, b) for a, b in zip(trait_item.generics, tg)]), f'{[show(g) for g in trait_item.generics]} vs {[show(g) for g in tg]}')
+        if concrete is not None:
+            # a concrete dependency written in any way (ident, qualified path, generic instantiation ..) leaves the fn's own type /
+            # const parameters where they belong: on the leaf trait (the impl for C and the hand-written impls name them)
+            O.add('C05', 'leaf-trait-carries-the-other-generic-parameters-of-the-fn', len(trait_item.generics) == len(tg) and
+                  zand(*[toks_eq(a, b) for a, b in zip(trait_item.generics, tg)]), f'{[show(g) for g in trait_item.generics]} vs {[show(g) for g in tg]}')
         ig = gens[1:] if first_is_t else gens
         O.add('C03', 'impl-generics-repeat-the-trait-generics', len(ig) == len(tg) and zand(*[toks_eq(a, b) for a, b in zip(ig, tg)]),
               f'{[show(g) for g in ig]} vs {[show(g) for g in tg]}')
